@@ -131,7 +131,21 @@ def run(ctx, replay=None):
             for y in range(h):
                 for x in range(w):
                     keys.append((Position(y, x), Area((0, h - 1), (0, w - 1))))
-    rng.shuffle(keys)
+    # the same absolute origin and the same shape in differently placed areas (a cache key must contain all of it)
+    for (h, w) in [(3, 5), (4, 4), (2, 6), (5, 3)]:
+        for (oy, ox) in [(0, 0), (-1, -2), (-(h - 1), -(w // 2)), (-(h // 2), 0)]:
+            a = Area((oy, oy + h - 1), (ox, ox + w - 1))
+            for p in [Position(0, 0), Position(oy + h - 1, ox + w // 2)]:
+                if a.contains(p) and (p, a) not in keys:
+                    keys.append((p, a))
+    n_plain = sum(h * w for h in range(2, 7) for w in range(2, 7))
+    plain, shifted = keys[:n_plain], keys[n_plain:]
+    rng.shuffle(plain)
+    keys = []
+    for k, key in enumerate(plain):   # interleave so that the shifted areas are among the first 150 keys
+        keys.append(key)
+        if k % 4 == 0 and shifted:
+            keys.append(shifted.pop())
     assert len(set(keys)) == len(keys)
     keys = keys[:150]
     behs_small, res1 = cachereplay.model_behaviours(ctx.work, cap=2, nkeys=3, depth=6)
